@@ -53,7 +53,12 @@ func globalIdent(old ast.GlobalIdent) ir.GlobalIdent {
 // localIdent returns the identifier (without '%' prefix) of the given local
 // identifier.
 func localIdent(old ast.LocalIdent) ir.LocalIdent {
-	ident := old.Text()
+	return localIdentFromText(old.Text())
+}
+
+// localIdentFromText returns the identifier (without '%' prefix) of the given
+// local identifier in LLVM IR assembly syntax.
+func localIdentFromText(ident string) ir.LocalIdent {
 	const prefix = "%"
 	if !strings.HasPrefix(ident, prefix) {
 		panic(fmt.Errorf("invalid local identifier %q; missing '%s' prefix", ident, prefix))
